@@ -467,6 +467,52 @@ def generator_rules(ctx, pid, gen_rel, fun_rel, codec):
                       'the loop counter of `for (i = 0; i < length; i++)` and the cast of the decoded length must use a type that holds checker.maximum; found %s -- with a maximum of '
                       '256 the counter wraps and the generated loop never terminates' % [ast.unparse(c) for c in calls], stmt='loop counter type')
 
+    # ---- R11 scratch ownership: a generated local variable is allocated (add_unique_*variable) by the invocation that uses it.  The lifetimes of the scratch
+    #      variables of nested types overlap in the generated function (an inner SEQUENCE is emitted between the outer one's write and read of its buffer), so a
+    #      name that is kept on the generator object and handed out again is shared by invocations that are both live.
+    R11 = pid + '.R11'
+    ctx.rule(R11, 'generated scratch variables are allocated per use: the result of add_unique_*variable is bound to a local of the invocation, never kept on the generator')
+    alloc = {'add_unique_variable', 'add_unique_encode_variable', 'add_unique_decode_variable'}
+    n11 = 0
+    for rel in (UTIL, gen_rel):
+        mm = model.mod(rel)
+        fs = [fn for c_ in mm.classes.values() for fn in c_.methods.values()]
+        # wrappers that only return a fresh allocation are allocators themselves
+        grew = True
+        while grew:
+            grew = False
+            for fn in fs:
+                if fn.name in alloc:
+                    continue
+                rets = [r_ for r_ in walk_no_nested(fn) if isinstance(r_, ast.Return) and r_.value is not None]
+                if rets and all(isinstance(r_.value, ast.Call) and isinstance(r_.value.func, ast.Attribute) and r_.value.func.attr in alloc for r_ in rets) \
+                        and not any(isinstance(n_, ast.Assign) and any(not isinstance(t_, ast.Name) for t_ in n_.targets) for n_ in walk_no_nested(fn)):
+                    alloc.add(fn.name)
+                    grew = True
+        for fn in fs:
+            for n_ in walk_no_nested(fn):
+                if not (isinstance(n_, ast.Call) and isinstance(n_.func, ast.Attribute) and n_.func.attr in alloc):
+                    continue
+                n11 += 1
+                st = Model.enclosing_stmt(n_)
+                kept = None
+                if isinstance(st, ast.Assign):
+                    for t_ in st.targets:
+                        for x_ in ast.walk(t_):
+                            if isinstance(x_, (ast.Attribute, ast.Subscript)) and 'self' in {y_.id for y_ in ast.walk(x_) if isinstance(y_, ast.Name)}:
+                                kept = ast.unparse(t_)
+                elif isinstance(st, ast.Expr) and isinstance(st.value, ast.Call) and isinstance(st.value.func, ast.Attribute) \
+                        and st.value.func.attr in ('append', 'add', 'setdefault', 'update', 'extend') and ast.unparse(st.value.func.value).startswith('self.'):
+                    kept = ast.unparse(st.value.func.value)
+                ctx.instance(R11, '%s: %s' % (Model.qual(fn), ast.unparse(n_)[:80]), 'local to the invocation' if kept is None else 'VIOLATION', node=n_, file=rel)
+                if kept is not None:
+                    ctx.violation(R11, rel, n_, Model.qual(fn),
+                                  'the generated variable allocated by %s is kept in %s and handed out again: nested types whose scratch lifetimes overlap in the generated function '
+                                  '(an inner SEQUENCE between the outer one writing and reading its buffer) share it, so the outer value is overwritten' % (ast.unparse(n_)[:80], kept),
+                                  stmt=norm_stmt(st))
+    if n11 < 5:
+        raise AnalysisError('%s examined only %d allocations of generated variables' % (R11, n11))
+
 
 def check(ctx):
     ctx.rule('C09.R1', 'C helpers: every buffer access inside a checked allocation; cursor ownership; local arrays; loop shape')
